@@ -104,6 +104,9 @@ pub enum BlockSpec {
     SkipF32 { skip: u32 },
     DelayU8 { delay: u32 },
     DelayF32 { delay: u32 },
+    /// Delay<u8> with set_delay(): `early` delays set before anything ran, `mid = (at, d)` once
+    /// exactly `at` samples have passed (harness composite `derived::DelayRetune`)
+    DelayRetuneU8 { d0: u16, early: Vec<u16>, mid: Option<(u16, u16)> },
     ResampU8 { interp: u16, deci: u16 },
     ResampF32 { interp: u16, deci: u16 },
     FirF32 { taps: TapSpec, deci: u8 },
@@ -241,6 +244,12 @@ pub fn spec_strategy() -> BoxedStrategy<BlockSpec> {
         prop_oneof![0u32..4, 0u32..3000].prop_map(|skip| SkipF32 { skip }),
         prop_oneof![0u32..4, 0u32..6000, 0u32..14000].prop_map(|delay| DelayU8 { delay }),
         prop_oneof![0u32..4, 0u32..3000].prop_map(|delay| DelayF32 { delay }),
+        (
+            prop_oneof![0u16..6, 0u16..60, 0u16..3000],
+            prop::collection::vec(prop_oneof![0u16..6, 0u16..60, 0u16..3000], 0..3),
+            prop::option::weighted(0.7, (prop_oneof![0u16..10, 0u16..600, 0u16..6000], prop_oneof![0u16..6, 0u16..60, 0u16..3000])),
+        )
+            .prop_map(|(d0, early, mid)| DelayRetuneU8 { d0, early, mid }),
         (1u16..13, 1u16..13).prop_map(|(interp, deci)| ResampU8 { interp, deci }),
         (1u16..13, 1u16..13).prop_map(|(interp, deci)| ResampF32 { interp, deci }),
         (tapspec_strategy(200), 1u8..9).prop_map(|(taps, deci)| FirF32 { taps, deci }),
@@ -280,6 +289,9 @@ pub enum TagRule {
     /// index - skip, tags below skip dropped
     SkipBy(usize),
     Div(usize),
+    /// index + d_eff below `at`; from `at` on index + d_new, and when the delay was lowered
+    /// the first d_eff - d_new samples from `at` are dropped with their tags
+    Retune { d_eff: usize, at: usize, d_new: usize },
 }
 
 /// Key used for the harness's own propagation-tracking tags.
@@ -309,6 +321,7 @@ impl BlockSpec {
             TeeU8 | TeeF32 => "Tee",
             SkipU8 { .. } | SkipF32 { .. } => "Skip",
             DelayU8 { .. } | DelayF32 { .. } => "Delay",
+            DelayRetuneU8 { .. } => "Delay+set_delay",
             ResampU8 { .. } | ResampF32 { .. } => "RationalResampler",
             FirF32 { .. } | FirC32 { .. } => "FirFilter",
             FftFilter { .. } => "FftFilter",
@@ -387,6 +400,13 @@ impl BlockSpec {
             | IirC32 { .. } | MapAddConstF32 { .. } | BurstTaggerU32 { .. } | TeeU8 | TeeF32 => TagRule::Same,
             SkipU8 { skip } | SkipF32 { skip } => TagRule::SkipBy(*skip as usize),
             DelayU8 { delay } | DelayF32 { delay } => TagRule::Shift(*delay as usize),
+            DelayRetuneU8 { d0, early, mid } => {
+                let d_eff = early.last().copied().unwrap_or(*d0) as usize;
+                match mid {
+                    None => TagRule::Shift(d_eff),
+                    Some((at, d)) => TagRule::Retune { d_eff, at: *at as usize, d_new: *d as usize },
+                }
+            }
             FirF32 { deci, .. } | FirC32 { deci, .. } => TagRule::Div(*deci as usize),
             FftFilter { .. } | FftFilterFloat { .. } | Hilbert { .. } => TagRule::Same,
             Derived { kind, .. } if *kind != 9 => TagRule::Same,
@@ -411,7 +431,7 @@ impl BlockSpec {
             }
             FirC32 { .. } | FftFilter { .. } | FftStream { .. } => vec![D::C32(gen_c32(&g[0], FDom::Finite))],
             AddConstU32 { .. } => vec![D::U32(gen_u32_small(&g[0]))],
-            XorConstU8 { .. } | TeeU8 | SkipU8 { .. } | DelayU8 { .. } | ResampU8 { .. } | RtlSdrDecode | StreamToPduU8 { .. } => {
+            XorConstU8 { .. } | TeeU8 | SkipU8 { .. } | DelayU8 { .. } | DelayRetuneU8 { .. } | ResampU8 { .. } | RtlSdrDecode | StreamToPduU8 { .. } => {
                 vec![D::U8(gen_u8(&g[0], BDom::Bytes))]
             }
             StreamToPduF32 { .. } => vec![D::F32(gen_f32(&g[0], FDom::Any))],
@@ -572,6 +592,12 @@ impl BlockSpec {
             SkipU8 { skip } => one!(U8, |r| Skip::new(r, skip as usize)),
             SkipF32 { skip } => one!(F32, |r| Skip::new(r, skip as usize)),
             DelayU8 { delay } => one!(U8, |r| Delay::new(r, delay as usize)),
+            DelayRetuneU8 { d0, early, mid } => one!(U8, |r| crate::derived::DelayRetune::new(
+                r,
+                d0 as usize,
+                &early.iter().map(|x| *x as usize).collect::<Vec<_>>(),
+                mid.map(|(a, d)| (a as usize, d as usize))
+            )),
             DelayF32 { delay } => one!(F32, |r| Delay::new(r, delay as usize)),
             ResampU8 { interp, deci } => one!(U8, |r| RationalResampler::new(r, interp as usize, deci as usize).expect("resampler")),
             ResampF32 { interp, deci } => one!(F32, |r| RationalResampler::new(r, interp as usize, deci as usize).expect("resampler")),
@@ -769,7 +795,7 @@ pub fn widest_elem(spec: &BlockSpec) -> usize {
         AddConstC32 { .. } | MulConstC32 { .. } | ComplexToMag2 | QuadDemod { .. } | FastFm | IirC32 { .. } | FirC32 { .. }
         | FftFilter { .. } | FftStream { .. } | FloatToComplex | Hilbert { .. } | RtlSdrDecode | FftFilterFloat { .. } => 8,
         XorConstU8 { .. } | XorU8 | Nrzi | Descrambler { .. } | Cac { .. } | CacTag { .. } | TeeU8 | SkipU8 { .. } | DelayU8 { .. }
-        | ResampU8 { .. } | Hdlc { .. } | Il2p | StreamToPduU8 { .. } | VecToStreamU8 | ToTextU8 { .. }
+        | DelayRetuneU8 { .. } | ResampU8 { .. } | Hdlc { .. } | Il2p | StreamToPduU8 { .. } | VecToStreamU8 | ToTextU8 { .. }
         | VectorSourceU8 { .. } | NullSinkU8 | VectorSinkU8 { .. } | FileSourceU8 { .. } => 1,
         SignalSourceC32 => 8,
         _ => 4,
